@@ -13,7 +13,7 @@ RULE = ("Generated test programs (setUp before/after the upcall, test method, te
         "nested cleanups registered anywhere, expectThat/assertThat mismatches, force_failure, skip decorators; every "
         "stage may raise failure / error / skip / expected failure / unexpected success / MultipleExceptions / "
         "KeyboardInterrupt / SystemExit / a custom BaseException; skips with an empty reason, exceptions whose bool() is "
-        "False, expectFailure around a callable raising an error or a skip) run against 7 result flavours (2.6-style, 2.7-style, "
+        "False, expectFailure around a callable raising an error or a skip) run against 9 result flavours (2.6-style, 2.7-style, "
         "extended, Twisted-style, testtools.TestResult, StreamResult behind ExtendedToStreamDecorator, result=None); "
         "oracle: the event log is exactly startTest, one outcome, stopTest; a non-Exception error is reported as an "
         "error, all later stages still run (execution log equals the reference interpreter's) and the very exception "
@@ -178,7 +178,7 @@ def subchecks(tier):
         Sub("random_programs", run_case, CASE, 4000 if q else 60000),
         Sub("skip_reason_grid", run_case, enum=_enum_skip_reasons, enum_complete=True,
             note="5 skip shapes (text, empty, no argument, non-text, raised inside expectFailure) x 5 stages x "
-                 "{nothing, failed expectThat, expectThat with details, expected failure} recorded before x 7 flavours"),
+                 "{nothing, failed expectThat, expectThat with details, expected failure} recorded before x 9 flavours"),
         Sub("fault_grid", run_case, enum=_enum(not q), enum_complete=True,
-            note=("10 behaviours ^ 5 stages x 7 flavours (+ expectThat variant)" if not q else "5 behaviours ^ 5 stages x 3 flavours")),
+            note=("10 behaviours ^ 5 stages x 9 flavours (+ expectThat variant)" if not q else "5 behaviours ^ 5 stages x 3 flavours")),
     ]
